@@ -17,7 +17,9 @@ type Evidence struct {
 	suites   []map[string]interface{}
 	harness  []map[string]interface{}
 	notes    []string
-	funcs    map[string]string // function -> file hash
+	funcs    map[string]string // function -> file
+	hfuncs   map[string]bool
+	files    map[string]string
 	states   int64
 	trans    int64
 	queries  int
@@ -38,7 +40,7 @@ type Evidence struct {
 }
 
 func newEvidence(prop, tier string, seed int) *Evidence {
-	return &Evidence{prop: prop, tier: tier, seed: seed, loaded: map[string]*Loaded{}, funcs: map[string]string{}}
+	return &Evidence{prop: prop, tier: tier, seed: seed, loaded: map[string]*Loaded{}, funcs: map[string]string{}, hfuncs: map[string]bool{}, files: map[string]string{}}
 }
 
 func (e *Evidence) addNote(s string) { e.notes = append(e.notes, s) }
@@ -94,12 +96,19 @@ func (e *Evidence) addHarness(spec *HarnessSpec, r *HarnessResult, confirmed, kn
 			ld = l
 		}
 	}
-	for f := range r.Funcs {
-		if !strings.Contains(f, modPath) {
+	for f, file := range r.Funcs {
+		if !strings.Contains(f, modPath) || strings.HasSuffix(f, ".init") {
 			continue
 		}
-		e.funcs[f] = ""
-		_ = ld
+		short := strings.ReplaceAll(f, modPath+"/", "")
+		if strings.Contains(filepath.Base(file), "zz_") {
+			e.hfuncs[short] = true
+			continue
+		}
+		e.funcs[short] = file
+		if ld != nil && file != "" {
+			e.files[strings.TrimPrefix(file, ld.repo+"/")] = ld.hashFile(file)
+		}
 	}
 	for _, s := range r.Samples {
 		if len(e.samples) < 8 {
@@ -120,30 +129,12 @@ func (e *Evidence) write() error {
 		funcs = append(funcs, f)
 	}
 	sort.Strings(funcs)
-	// hash the repo source files of the packages encoded
-	files := map[string]string{}
-	for _, ld := range e.loaded {
-		for rel, p := range ld.pkgs {
-			used := false
-			prefix := p.Pkg.Path()
-			for _, f := range funcs {
-				if strings.Contains(f, prefix+".") || strings.Contains(f, prefix+")") {
-					used = true
-					break
-				}
-			}
-			if !used {
-				continue
-			}
-			matches, _ := filepath.Glob(filepath.Join(ld.repo, rel, "*.go"))
-			for _, m := range matches {
-				if strings.HasSuffix(m, "_test.go") {
-					continue
-				}
-				files[strings.TrimPrefix(m, ld.repo+"/")] = ld.hashFile(m)
-			}
-		}
+	files := e.files
+	hf := make([]string, 0, len(e.hfuncs))
+	for f := range e.hfuncs {
+		hf = append(hf, f)
 	}
+	sort.Strings(hf)
 	if len(e.samples) == 0 {
 		e.samples = append(e.samples, map[string]interface{}{"note": "no completed path sample"})
 	}
@@ -164,6 +155,7 @@ func (e *Evidence) write() error {
 		"exhaustive":                    e.exit == 0,
 		"explanation":                   "states = symbolic paths explored to their end (each path stands for every input satisfying its path condition); transitions = SSA instructions executed symbolically; every assertion on every path was decided by the SMT solver (unsat = holds for all inputs of that path). traces_validated_against_impl = solver witnesses replayed against the natively compiled package.",
 		"functions_encoded":             funcs,
+		"harness_functions":             hf,
 		"repo_files_sha256_prefix":      files,
 		"harnesses":                     e.harness,
 		"suites":                        e.suites,
